@@ -418,15 +418,23 @@ func c14ErrClass(err error) (string, bool, bool) {
 		return "conflict", true, false
 	}
 	var nie *snap.NotInstalledError
-	if errors.As(err, &nie) {
+	var nieV snap.NotInstalledError
+	if errors.As(err, &nie) || errors.As(err, &nieV) {
 		return "not-installed", false, true
 	}
 	var aie *snap.AlreadyInstalledError
-	if errors.As(err, &aie) {
+	var aieV snap.AlreadyInstalledError
+	if errors.As(err, &aie) || errors.As(err, &aieV) {
 		return "already-installed", false, true
 	}
 	if errors.Is(err, store.ErrNoUpdateAvailable) {
 		return "no-update-available", false, true
+	}
+	// whatever the store answers is known before the conflict check runs
+	// (doInstall comes after the round trip)
+	var sae *store.SnapActionError
+	if errors.As(err, &sae) {
+		return "store-action-error", false, true
 	}
 	msg := err.Error()
 	for _, p := range c14PreconditionRx {
@@ -464,19 +472,73 @@ func (s *verifC14Suite) c14Footprint() c14Footprint {
 // ---------------------------------------------------------------------------
 // progress
 
-// c14Passes runs k ensure passes (state must NOT be locked).
+// c14Passes runs k passes of the task runner (state must NOT be locked): every
+// task that can start is started and its handler waited for.
 func (s *verifC14Suite) c14Passes(k int) {
+	runner := s.o.TaskRunner()
 	for i := 0; i < k; i++ {
-		s.se.Ensure()
-		s.se.Wait()
+		runner.Ensure()
+		runner.Wait()
 	}
 }
 
-// c14Settle lets everything that can run finish; held tasks stay (state must
-// NOT be locked). Returns false when the engine did not converge.
-func (s *verifC14Suite) c14Settle() bool {
-	err := s.o.Settle(20 * time.Second)
-	return err == nil || !strings.Contains(err.Error(), "not converging")
+// state must NOT be locked
+func (s *verifC14Suite) c14StatusVector() string {
+	s.state.Lock()
+	defer s.state.Unlock()
+	var b strings.Builder
+	tasks := s.state.Tasks()
+	sort.Slice(tasks, func(i, j int) bool { return tasks[i].ID() < tasks[j].ID() })
+	for _, t := range tasks {
+		fmt.Fprintf(&b, "%s:%d,", t.ID(), t.Status())
+	}
+	return b.String()
+}
+
+// c14Settle runs the whole state engine once and then the task runner until no
+// task changed status in three consecutive passes (logical quiescence: what is
+// left is held by the harness, waiting for a restart, or retrying without
+// effect) or the pass bound is hit. overlord.Settle is not used: it spins
+// until its wall-clock timeout while a check-rerefresh task of a blocked
+// change keeps retrying. State must NOT be locked. Returns the passes used.
+func (s *verifC14Suite) c14Settle() int {
+	runner := s.o.TaskRunner()
+	s.se.Ensure()
+	s.se.Wait()
+	prev := s.c14StatusVector()
+	idle, passes := 0, 1
+	for passes < 60 && idle < 3 {
+		runner.Ensure()
+		runner.Wait()
+		passes++
+		cur := s.c14StatusVector()
+		if cur == prev {
+			idle++
+			// let due retries (5 ms in this fixture) come up; this only
+			// shapes progress, no verdict depends on it
+			time.Sleep(6 * time.Millisecond)
+		} else {
+			idle = 0
+		}
+		prev = cur
+	}
+	// a change waiting for a system restart: the machine reboots
+	s.state.Lock()
+	for _, chg := range s.state.Changes() {
+		if chg.Status() != state.WaitStatus {
+			continue
+		}
+		for _, t := range chg.Tasks() {
+			if t.Status() == state.WaitStatus {
+				t.SetStatus(t.WaitedStatus())
+				t.Set("wait-for-system-restart-from-boot-id", nil)
+			}
+		}
+		chg.Set("wait-for-system-restart", nil)
+		chg.Set("pending-system-restart", nil)
+	}
+	s.state.Unlock()
+	return passes
 }
 
 // state must be locked
@@ -566,7 +628,7 @@ func (s *verifC14Suite) c14History(c *C, k *kit.Check, idx int, sc c14Script) {
 			case "excl":
 				if ev.Settle {
 					st.Unlock()
-					s.c14Settle()
+					k.Count("ensure_passes", s.c14Settle())
 					st.Lock()
 				}
 				protocol := ev.Arg == "remodel" || ev.Arg == "create-recovery-system" || ev.Arg == "remove-recovery-system"
@@ -637,6 +699,7 @@ func (s *verifC14Suite) c14History(c *C, k *kit.Check, idx int, sc c14Script) {
 		}
 		if blocking != nil {
 			k.Count("busy_at_request", 1)
+			k.Count("busy_blocking_change_status_"+blocking.chg.Status().String(), 1)
 			sawBusy = true
 		}
 		if excl != nil {
@@ -751,12 +814,26 @@ func (s *verifC14Suite) c14History(c *C, k *kit.Check, idx int, sc c14Script) {
 			k.Count("ensure_passes", n)
 		case step.Progress == "settle":
 			st.Unlock()
-			ok := s.c14Settle()
+			n := s.c14Settle()
 			st.Lock()
 			k.Count("settles", 1)
-			if !ok {
-				k.Count("settle_not_converging", 1)
+			k.Count("ensure_passes", n)
+			if n >= 60 {
+				k.Count("settle_hit_pass_bound", 1)
 			}
+			// what the overlord's pruning does in the long run: finished
+			// changes and unlinked scratch tasks leave the state. The
+			// model forgets the claims of finished changes first.
+			live := m.claims[:0]
+			for _, cl := range m.claims {
+				if cl.chg.Status().Ready() {
+					k.Count("changes_finished_"+cl.chg.Status().String(), 1)
+					continue
+				}
+				live = append(live, cl)
+			}
+			m.claims = live
+			st.Prune(time.Time{}, 0, 10000*time.Hour, 0)
 		case step.Progress == "abort":
 			for _, cl := range m.claims {
 				if !cl.held && !cl.chg.Status().Ready() {
@@ -774,21 +851,13 @@ func (s *verifC14Suite) c14History(c *C, k *kit.Check, idx int, sc c14Script) {
 		k.Max("max_unready_claims", m.unready())
 	}
 
-	// wind down: everything the harness holds is completed, the rest settles
-	for _, cl := range heldQ {
-		c14Complete(cl)
-	}
-	st.Unlock()
-	s.c14Settle()
-	st.Lock()
 	for _, cl := range m.claims {
-		if !cl.chg.Status().Ready() {
-			k.Count("changes_unready_at_end", 1)
+		if cl.chg.Status().Ready() {
+			k.Count("changes_finished_"+cl.chg.Status().String(), 1)
 		} else {
-			k.Count("changes_ready_at_end_"+cl.chg.Status().String(), 1)
+			k.Count("changes_unready_at_end_of_history", 1)
 		}
 	}
-
 	if os.Getenv("VERIF_C14_TIMING") != "" {
 		b, _ := json.Marshal(st)
 		fmt.Printf("TIMING state json size %d, tasks %d, changes %d\n", len(b), len(st.Tasks()), len(st.Changes()))
@@ -820,8 +889,8 @@ func (s *verifC14Suite) TestVerifC14(c *C) {
 		c.Fatal(err)
 	}
 
-	nHist := kit.Scale(140, 600)
-	nRounds := kit.Scale(6, 30)
+	nHist := kit.Scale(36, 150)
+	nRounds := kit.Scale(3, 6)
 	only := kit.OnlyCase()
 	for idx := 0; idx < nHist; idx++ {
 		if only >= 0 && only != idx {
@@ -837,19 +906,20 @@ func (s *verifC14Suite) TestVerifC14(c *C) {
 		if only >= 0 && only != idx {
 			continue
 		}
-		s.c14RaceRound(c, k, idx, kit.Scale(120, 300))
+		s.c14RaceRound(c, k, idx, kit.Scale(100, 200))
 		s.TearDownTest(c)
 		s.SetUpTest(c)
 	}
 
 	if only < 0 {
-		k.Floor("busy_at_request", 40)
-		k.Floor("busy_rejected_with_conflict_error", 20)
-		k.Floor("exclusive_probes", 20)
-		k.Floor("requests_accepted", 100)
-		k.Floor("rejected_footprint_checks", 100)
+		k.Floor("busy_at_request", 15)
+		k.Floor("busy_rejected_with_conflict_error", 8)
+		k.Floor("exclusive_probes", 15)
+		k.Floor("requests_accepted", 40)
+		k.Floor("rejected_footprint_checks", 60)
 		k.Floor("race_calls_overlapping_a_mutation", 10)
-		k.Floor("race_accepted", 10)
+		k.Floor("race_calls_record_changed_meanwhile", 5)
+		k.Floor("race_accepted", 5)
 	} else {
 		k.MinDistinct(0)
 	}
